@@ -5,6 +5,7 @@ import "oxverif/harness/core"
 // Targets maps property ids to their correspondence targets.
 var Targets = map[string]core.Target{
 	"C11": C11{},
+	"C03": C03{},
 	"C06": C06{},
 	"C07": C07{},
 	"C08": C08{},
